@@ -1014,7 +1014,7 @@ func ruleR19t(c *Ctx, r *Report) {
 	}
 	key := "matched-bytes-are-read@" + fnKey(fn)
 	drained := false
-	for _, g := range withAnon(fn) {
+	for _, g := range withNewCallees(fn) {
 		var lb ssa.Value
 		eachInstr(g, func(in ssa.Instruction) {
 			if ci, ok := in.(*ssa.Call); ok && ci.Common().IsInvoke() && ci.Common().Method.Name() == "AsLargeBytes" {
